@@ -20,7 +20,7 @@ NOPS = {'hset_limp4_p4': 40, 'tset_n4_p4': 44, 'array_triv': 30, 'hset_limp4_nv'
 KNOWN_KEYS = []
 
 
-GEN = ['gen_openn1_add.json', 'gen_open2n2_add.json']
+GEN = ['gen_openn1_add.json', 'gen_open2n2_add.json', 'gen_limp4_add.json', 'gen_arrreset.json']
 
 
 def gen_cases(ctx):
@@ -54,6 +54,23 @@ def gen_cases(ctx):
                     out.append('geno2 - 0 0 add %d %d 0 %d %d %s' % (f, r.below(2 ** 64), r.below(40), r.below(300), tail))
                 for idx in range(3 - count, 3):
                     out.append('geno2 - 0 0 rem %d 0 %d 0 0 %s' % (f, idx, tail))
+    # generated BucketLimP4<4>::AddCrt: null pointer (memPoolIndex 2 or 4), grow (count == memPoolIndex 1..3), in place (count < memPoolIndex);
+    # f: 0 nothing fails, 1 the memory manager under the pools throws bad_alloc, 2 the item creator throws
+    for (nn, count, mpi) in [(0, 0, 2), (0, 0, 4), (1, 1, 1), (1, 2, 2), (1, 3, 3), (1, 1, 2), (1, 1, 3), (1, 2, 3), (1, 1, 4), (1, 2, 4), (1, 3, 4)]:
+        for _ in range(max(2, reps // 2)):
+            by = [r.below(128) if i < count else 128 + r.below(128) for i in range(4)] + [128 + r.below(128), 128 + r.below(128)]
+            for f in (0, 1, 2):
+              for hcnt in (4,):   # hashCount: 4 in this build (no pointer bits are stolen); the theorems hold for 4..8
+                out.append('genp4 - 0 %d add %d %d %d %d %d %d %s' % (hcnt, f, r.below(2 ** 64), mpi, r.below(40), r.below(300), nn, ' '.join(map(str, by))))
+    # generated Array<.., ArraySettings<4>>::Data::Reset / pvReset: external array (cap0 > 4), new capacity internal (<= 4: pvReset, the creator
+    # writes w items of value v over the union word that holds mCapacity) or external; f: 0 nothing fails, 1 the creator throws after its
+    # writes, 2 the allocation throws
+    for _ in range(reps * 2):
+        cap0 = 5 + r.below(40); cnt0 = r.below(cap0 + 1)
+        for capacity in (r.below(5), 5 + r.below(60)):
+            count = r.below(capacity + 1); w = r.below(count + 1); v = r.below(2 ** 63)
+            for f in (0, 1, 2):
+                out.append('genrst - 0 0 rst %d %d %d %d %d %d %d' % (f, cap0, cnt0, capacity, count, w, v))
     return out
 
 
@@ -275,7 +292,8 @@ def run(ctx):
                         '(momo on GCC/Clang treats every type declaring a move constructor as nothrow relocatable; a throwing move inside such a relocation is std::terminate, outside the property)',
                         'maps are exercised with extraCheckMode = nothing (with the default assertion mode pvExtraCheck swallows a functor exception and asserts; reported)',
                         'documented exceptions honoured: Array/SegmentedArray Insert/Remove, multi-item Insert, predicate Remove, Merge*, Key&& argument, map Remove value (items 4/5)']
-    # T-gen: BucketOpenN1 / BucketOpen2N2 ::AddCrt and ::Remove are regenerated from /repo's headers (the functor is a step that may throw)
+    # T-gen: BucketOpenN1 / BucketOpen2N2 ::AddCrt and ::Remove, BucketLimP4::AddCrt / pvAdd0 / pvAdd, Array::Data::Reset / pvReset are regenerated from
+    # /repo's headers (functor / constructor of a guard / RelocateCreate = steps that may throw; catch-and-rethrow handlers translated)
     ctx.regen(GEN)
     # the C++ builds (9 translation units, in parallel) run concurrently with the Coq build
     import threading
@@ -294,8 +312,17 @@ def run(ctx):
         ctx.tie_obligations.append({'name': 'event traces + final cells of the model == real momo mechanisms on %d (mechanism, category, count, k) cases' % len(cases),
                                     'ok': not mism})
         ngen = len([c for c in cases if c.startswith('gen')])
+        ngen = len([c for c in cases if c.startswith('genn1') or c.startswith('geno2')])
         ctx.tie_obligations.append({'name': 'generated Gallina (AddCrt / Remove of BucketOpenN1, BucketOpen2N2, throwing and non-throwing functor) == real buckets, every byte, on %d cases' % ngen,
-                                    'ok': not [m for m in mism if m[1].startswith('gen')]})
+                                    'ok': not [m for m in mism if m[1].startswith('genn1') or m[1].startswith('geno2')]})
+        np4 = len([c for c in cases if c.startswith('genp4')])
+        ctx.tie_obligations.append({'name': 'generated Gallina (BucketLimP4::AddCrt / pvAdd0 / pvAdd; nothing fails / pool allocation throws / creator throws) == real bucket: completed flag, '
+                                            'every byte, state bits, pointer changed, blocks handed out by the pools, on %d cases' % np4,
+                                    'ok': not [m for m in mism if m[1].startswith('genp4')]})
+        nrst = len([c for c in cases if c.startswith('genrst')])
+        ctx.tie_obligations.append({'name': 'generated Gallina (Array::Data::Reset / pvReset with internal capacity 4; creator overwrites the union word and throws / allocation throws) == real '
+                                            'Data::Reset: completed flag, mItems, count, reported capacity, live blocks, on %d cases' % nrst,
+                                    'ok': not [m for m in mism if m[1].startswith('genrst')]})
         for (i, c, a, b) in mism[:3]:
             ctx.violation('model and implementation traces disagree', {'kind': 'micro', 'case': c, 'impl': a, 'model': b,
                           'cmd': 'echo "%s" | build/C04/micro' % c}, found_input=True)
